@@ -152,8 +152,9 @@ func (vc *vectorIndexCache) createAndCacheLOCKED(fieldID uint16, mem []byte,
 
 		docIDUint32 := uint32(docID)
 		if isExceptNotEmpty && except.Contains(docIDUint32) {
+			// excluded for this query only: the cached maps must describe every
+			// document, later queries come with other exclusion bitmaps
 			vecIDsToExclude = append(vecIDsToExclude, vecID)
-			continue
 		}
 		vecDocIDMap[vecID] = docIDUint32
 		if loadDocVecIDMap {
